@@ -1,6 +1,7 @@
 (** Single entry point of the extracted model: name of the case kind -> function. *)
 From Coq Require Import List NArith ZArith String.
-From Tongo Require Import Lib.Bits Lib.Sx Harness.H06 Harness.H07 Harness.H01 Harness.H18.
+From Tongo Require Import Lib.Bits Lib.Sx Harness.H06 Harness.H07 Harness.H01 Harness.H18
+  Harness.H05 Harness.H13 Harness.H19.
 Import ListNotations.
 Local Open Scope string_scope.
 
@@ -15,4 +16,22 @@ Definition run (name : string) (a : sx) : sx :=
   else if is "c01.ser" then H01.run_ser a
   else if is "c18.proof" then H18.run_proof a
   else if is "c18.key" then H18.run_key a
+  else if is "c05.encode" then H05.run_encode a
+  else if is "c05.raw" then H05.run_raw a
+  else if is "c05.decode" then H05.run_decode a
+  else if is "c05.cells" then H05.run_cells a
+  else if is "c05.ops" then H05.run_ops a
+  else if is "c05.addr" then H05.run_addr a
+  else if is "c13.ub" then H13.run_ub a
+  else if is "c13.ubx" then H13.run_ubx a
+  else if is "c13.walk" then H13.run_walk a
+  else if is "c13.wait" then H13.run_wait a
+  else if is "c13.repro" then H13.run_repro a
+  else if is "c19.msg" then H19.run_msg a
+  else if is "c19.conv" then H19.run_conv a
+  else if is "c19.payload" then H19.run_payload a
+  else if is "c19.pubkey" then H19.run_pubkey a
+  else if is "c19.stateinit" then H19.run_stateinit a
+  else if is "c19.check" then H19.run_check a
+  else if is "c19.clock" then H19.run_clock a
   else sx_err "unknown case kind".
